@@ -28,6 +28,8 @@ import (
 	ddb1 "github.com/aws/aws-sdk-go/service/dynamodb"
 	c1 "github.com/truora/minidyn/aws-v1/client"
 	c2 "github.com/truora/minidyn/aws-v2/client"
+	"github.com/truora/minidyn/interpreter"
+	mt "github.com/truora/minidyn/types"
 )
 
 func budget() time.Duration {
@@ -517,4 +519,99 @@ func TestConcV2FailureThenClear(t *testing.T) {
 			}
 			return len(o.Items), nil
 		})
+}
+
+// Registering native matchers / updaters while operations evaluate expressions through the registry: no race, and the
+// client keeps making progress (a reader that takes the registry lock twice dead-locks against a waiting writer).
+func TestConcV2NativeRegistry(t *testing.T) {
+	cl := c2.NewClient()
+	cl.ActivateNativeInterpreter()
+	if err := c2.AddTable(ctx, cl, "tbl", "h", ""); err != nil {
+		t.Fatal(err)
+	}
+	for i := 0; i < 8; i++ {
+		_, _ = cl.PutItem(ctx, &ddb2.PutItemInput{TableName: aws.String("tbl"), Item: map[string]t2.AttributeValue{"h": &t2.AttributeValueMemberS{Value: fmt.Sprint("k", i)}, "g": &t2.AttributeValueMemberS{Value: "v"}}})
+	}
+	ni := cl.GetNativeInterpreter()
+	ni.AddMatcher("tbl", interpreter.ExpressionTypeFilter, "g = :v", func(item, attrs map[string]*mt.Item) bool { return true })
+	ni.AddMatcher("tbl", interpreter.ExpressionTypeConditional, "g = :v", func(item, attrs map[string]*mt.Item) bool { return true })
+	ni.AddUpdater("tbl", "SET g = :v", func(item, attrs map[string]*mt.Item) {})
+	vals := map[string]t2.AttributeValue{":v": &t2.AttributeValueMemberS{Value: "v"}}
+	var progress int64
+	stop := make(chan struct{})
+	var wg sync.WaitGroup
+	for g := 0; g < 3; g++ {
+		wg.Add(1)
+		go func(g int) {
+			defer wg.Done()
+			for i := 0; ; i++ {
+				select {
+				case <-stop:
+					return
+				default:
+				}
+				switch (i + g) % 3 {
+				case 0:
+					o, err := cl.Scan(ctx, &ddb2.ScanInput{TableName: aws.String("tbl"), FilterExpression: aws.String("g = :v"), ExpressionAttributeValues: vals})
+					if err != nil || len(o.Items) != 8 {
+						t.Errorf("LINEARIZABILITY: scan with a registered filter: %v items, %v", len(o.Items), err)
+						return
+					}
+				case 1:
+					_, _ = cl.UpdateItem(ctx, &ddb2.UpdateItemInput{TableName: aws.String("tbl"), Key: map[string]t2.AttributeValue{"h": &t2.AttributeValueMemberS{Value: "k0"}},
+						UpdateExpression: aws.String("SET g = :v"), ConditionExpression: aws.String("g = :v"), ExpressionAttributeValues: vals})
+				case 2:
+					ni.AddMatcher("tbl", interpreter.ExpressionTypeFilter, fmt.Sprint("x", i%7, " = :v"), func(item, attrs map[string]*mt.Item) bool { return false })
+					ni.AddUpdater("tbl", fmt.Sprint("SET x", i%5, " = :v"), func(item, attrs map[string]*mt.Item) {})
+				}
+				atomic.AddInt64(&progress, 1)
+			}
+		}(g)
+	}
+	deadline := time.Now().Add(budget())
+	last, lastAt := int64(0), time.Now()
+	for time.Now().Before(deadline) {
+		time.Sleep(50 * time.Millisecond)
+		if p := atomic.LoadInt64(&progress); p != last {
+			last, lastAt = p, time.Now()
+		} else if time.Since(lastAt) > 3*time.Second {
+			t.Fatalf("DEADLOCK: no call completed for 3 s after %d calls (registering on the native interpreter while operations use it)", last)
+		}
+	}
+	close(stop)
+	done := make(chan struct{})
+	go func() { wg.Wait(); close(done) }()
+	select {
+	case <-done:
+	case <-time.After(5 * time.Second):
+		t.Fatalf("DEADLOCK: the workers did not finish")
+	}
+}
+
+// CreateTable reads the client's interpreter settings: racing it with ActivateNativeInterpreter / SetInterpreter on fresh
+// clients lets the race detector see a read of those settings outside the client mutex.
+func TestConcV1CreateVsSettings(t *testing.T) {
+	deadline := time.Now().Add(budget() / 2)
+	for round := 0; time.Now().Before(deadline); round++ {
+		cl := c1.NewClient()
+		var wg sync.WaitGroup
+		wg.Add(3)
+		go func() { defer wg.Done(); _ = c1.AddTable(cl, "tbl", "h", "") }()
+		go func() { defer wg.Done(); cl.ActivateNativeInterpreter() }()
+		go func() { defer wg.Done(); cl.SetInterpreter(interpreter.NewNativeInterpreter()) }()
+		wg.Wait()
+	}
+}
+
+func TestConcV2CreateVsSettings(t *testing.T) {
+	deadline := time.Now().Add(budget() / 2)
+	for round := 0; time.Now().Before(deadline); round++ {
+		cl := c2.NewClient()
+		var wg sync.WaitGroup
+		wg.Add(3)
+		go func() { defer wg.Done(); _ = c2.AddTable(ctx, cl, "tbl", "h", "") }()
+		go func() { defer wg.Done(); cl.ActivateNativeInterpreter() }()
+		go func() { defer wg.Done(); cl.SetInterpreter(interpreter.NewNativeInterpreter()) }()
+		wg.Wait()
+	}
 }
